@@ -34,5 +34,36 @@ func TestVerifC20Config(t *testing.T) {
 		}
 		m.Case(fmt.Sprintf("%q", s), true)
 	}
-	m.Sample(map[string]any{"cases": n})
+	// templates that are valid by the statement (go ... designer, uniform casing) must reach the
+	// generator: NewConfig keeps them verbatim and reports no error; "" selects the default
+	valid := 0
+	for _, pre := range []string{"", "x_", "A-", "1"} {
+		for _, g := range []string{"go", "Go", "GO"} {
+			for _, mid := range []string{"", "_", "-", "#", "__"} {
+				for _, d := range []string{"designer", "Designer", "DESIGNER"} {
+					for _, suf := range []string{"", ".x", "_z", "9"} {
+						tpl := pre + g + mid + d + suf
+						var cfg *Config
+						var err error
+						pv, p := vk.Recover(func() { cfg, err = NewConfig(tpl) })
+						switch {
+						case p:
+							m.Violate("C20:panic:NewConfig", fmt.Sprintf("case=%d;%q", n+valid, tpl), "panic %v", pv)
+						case err != nil:
+							m.Violate("C20:config-valid-template-rejected", fmt.Sprintf("case=%d;%q", n+valid, tpl), "NewConfig(%q) = %v", tpl, err)
+						case cfg == nil || cfg.NamingFormat != tpl:
+							m.Violate("C20:config-format-altered", fmt.Sprintf("case=%d;%q", n+valid, tpl), "format %q not kept", tpl)
+						}
+						valid++
+						m.Case("valid:"+tpl, true)
+					}
+				}
+			}
+		}
+	}
+	if cfg, err := NewConfig(""); err != nil || cfg == nil || cfg.NamingFormat != DefaultFormat {
+		m.Violate("C20:config-default", "case=-1;\"\"", "NewConfig(\"\") = %+v, %v", cfg, err)
+	}
+	m.Count("valid_templates_accepted", int64(valid))
+	m.Sample(map[string]any{"cases": n, "valid_templates": valid})
 }
